@@ -118,3 +118,17 @@ def derived_lengths(ints):
             if 0 < x < 2 ** 32 + 5:
                 out.add(x)
     return sorted(out)
+
+
+def products(ints):
+    """products of two or three new integers (a size written as 64 * 1024 * 1024 appears as three literals)"""
+    out = set()
+    small = [n for n in ints if 2 <= n <= 2 ** 20][:12]
+    for a in small:
+        for b in small:
+            if a * b <= 2 ** 33:
+                out.add(a * b)
+            for c in small:
+                if a * b * c <= 2 ** 33:
+                    out.add(a * b * c)
+    return sorted(out - set(ints))[:60]
